@@ -1,7 +1,7 @@
 (* C07 — property theorems about the model of VariationModel (FV.C07.Model).
    Statements only; the proofs are in Tents, Trim, Influence, Deltas, Main. *)
 From Coq Require Import List ZArith QArith Qabs Bool Sorting.Permutation.
-From FV.C07 Require Import Model Tents Trim Influence Deltas Main OrderIndep.
+From FV.C07 Require Import Model Tents Trim Influence Deltas Main OrderIndep Bounds.
 Import ListNotations.
 
 (* Input: any finite set of distinct locations with one (scaled integer)
@@ -110,6 +110,15 @@ Theorem result_independent_of_supply_order : forall n locs locs',
   Forall (fun l => length l = n) locs -> Permutation locs locs' -> model_new locs' = model_new locs.
 Proof. exact model_order_independent. Qed.
 Print Assumptions result_independent_of_supply_order.
+
+(* 9. Every tent of every influence region stays inside the normalised range: if all master
+      coordinates lie in [-B, B] (B is the scale of the integer grid, i.e. 1.0), so do the lower and
+      upper ends of every tent, after any amount of trimming. *)
+Theorem tents_stay_in_range : forall B n locs,
+  0 <= B -> wf_input n locs -> Forall (Forall (fun v => - B <= v <= B)) locs ->
+  Forall (fun r => Forall (fun t => - B <= tmin t /\ tmax t <= B) (tents r)) (m_infl (model_new locs)).
+Proof. exact tents_inside_unit_cube. Qed.
+Print Assumptions tents_stay_in_range.
 
 (* the hypotheses are satisfiable by a non-trivial layout (two axes, corner,
    on-axis and interior masters) *)
